@@ -25,7 +25,9 @@ SIGS_QUICK = ['->', 'i->i', 'i->', 'ij->ij', 'ij->ji', 'ij->i', 'ij->j', 'ij->',
               'i,i->i', 'i,i->', 'i,j->ij', 'i,j->ji', 'i,j->i', 'i,j->',
               'ij,j->i', 'ij,j->ij', 'ij,j->j', 'ij,j->', 'ij,i->j',
               'ij,jk->ik', 'ij,jk->', 'ij,ij->ij', 'ij,ji->i', 'ij,ij->', 'ij,jk->k', 'ij,jk->ijk',
-              'i,i,i->i', 'ij,j,j->i', 'i,j,k->ik']
+              'i,i,i->i', 'ij,j,j->i', 'i,j,k->ik',
+              # an index repeated inside one operand (co-indexed axes of one tensor are unified)
+              'ii->i', 'ii->', 'iij,j->i', 'ii,i->i', 'i,j,k->jik', 'i,j,k->kji']
 SIGS_THOROUGH = SIGS_QUICK + ['ij,jk,k->i', 'ij,jk,kl->il', 'ijk->ik', 'ijk,k->ij', 'ijk,jk->i', 'ij,jk,ki->', 'i,ij,j->',
                               'ijk->kji', 'ij,kl->ijkl', 'ij,jk,kl->', 'ijk,ijk->', 'ij,j,i->ij']
 
@@ -82,7 +84,18 @@ def cases(tier, seed):
                     per_op.append(specs)
                 combos = list(itertools.product(*per_op)) if per_op else [()]
                 if len(combos) > cap:
-                    combos = combos[:1] + rng.sample(combos[1:], cap - 1)
+                    # always kept: all-dense, all operands stride-0, all operands with a shared (diagonal) axis if any
+                    keep = [combos[0]]
+                    for pred in (lambda o: o['recipe']['layout'].startswith('expand') and o['default'] == 'zero',
+                                 lambda o: patterns.features(o['recipe'])['shared_axis'] and o['default'] == 'zero',
+                                 lambda o: o['recipe']['layout'] == 'perm' and o['default'] == 'zero'):
+                        pick = []
+                        for specs in per_op:
+                            c = [o for o in specs if pred(o)]
+                            pick.append(c[0] if c else specs[0])
+                        if tuple(pick) not in keep:
+                            keep.append(tuple(pick))
+                    combos = keep + rng.sample(combos[1:], max(1, cap - len(keep)))
                 tdesc = {c: patterns.depict_type(t) for c, t in types.items()}
                 for ops in combos:
                     base = {'sig': sig, 'sizes': sizes, 'types': tdesc, 'operands': list(ops)}
